@@ -863,6 +863,31 @@ def hosts_conv():
         h.n("Conv", ["a", "w", "b"], "y", pads=[0, 0, 0, 0], strides=strides, group=group)
         h.out("y")
         out.append(h.build())
+    # the same two fusions against the padding attributes of the Conv: no pads attribute, zero / non-zero pads, every auto_pad mode
+    # (an offset added BEFORE a padded Conv cannot move into the bias: the border sees zeros, not the offset)
+    for order, (ks, xs), cattrs in itertools.product(
+            ["affine_conv", "conv_affine"], [((2, 2), (1, 2, 3, 3)), ((3,), (1, 2, 4)), ((1, 1), (1, 2, 2, 2))],
+            [{}, {"pads": "zero"}, {"pads": "one"}, {"pads": "lower"}, {"auto_pad": "SAME_UPPER"}, {"auto_pad": "SAME_LOWER"}, {"auto_pad": "VALID"}, {"auto_pad": "NOTSET"}]):
+        nsp = len(ks)
+        ca = dict(cattrs)
+        if "pads" in ca:
+            ca["pads"] = {"zero": [0] * (2 * nsp), "one": [1] * (2 * nsp), "lower": [1] * nsp + [0] * nsp}[ca["pads"]]
+        h = H(f"{order} Conv{nsp}d kernel={list(ks)} conv attributes={ca}")
+        h.inp("x", F, xs)
+        h.c("w", w((2, 2) + ks))
+        h.c("b", w((2,)))
+        h.c("s", np.full((), 2.0, dtype=f32))
+        h.c("o", np.full((), 0.5, dtype=f32))
+        if order == "affine_conv":
+            h.n("Mul", ["x", "s"], "m")
+            h.n("Add", ["m", "o"], "a")
+            h.n("Conv", ["a", "w", "b"], "y", **ca)
+        else:
+            h.n("Conv", ["x", "w", "b"], "c", **ca)
+            h.n("Mul", ["c", "s"], "m")
+            h.n("Add", ["m", "o"], "y")
+        h.out("y")
+        out.append(h.build())
     # pad into conv
     for pads, mode, cval, conv_pads, auto in itertools.product(
             [[0, 0, 1, 0, 0, 2], [0, 0, 0, 0, 0, 0], [0, 1, 1, 0, 0, 1], [0, 0, -1, 0, 0, 0]], ["constant", "reflect"], [None, 0.0, 1.0],
